@@ -510,6 +510,77 @@ def r10_coerce_accepts_an_index(ctx):
         raise AnalysisError(f"pandas_engine coerce methods: expected Series-only accessor uses (DateTime .dt ...), found {n}")
 
 
+DTYPE_DROPPING = {"values", "to_numpy", "tolist", "to_list"}
+SELFTEST_DTYPE_DROPPING = """
+import pandas as pd
+class B:
+    def coerce_dtype_bad(self, check_obj, schema):
+        coerced = {i: schema.coerce(check_obj.get_level_values(i)) for i in range(check_obj.nlevels)}
+        return pd.MultiIndex.from_arrays([v.values for v in coerced.values()], names=check_obj.names)
+    def coerce_dtype_ok(self, check_obj, schema):
+        coerced = {i: schema.coerce(check_obj.get_level_values(i)) for i in range(check_obj.nlevels)}
+        return pd.MultiIndex.from_arrays([v.to_numpy() if type(v).__module__.startswith("pyspark.pandas") else v.array for v in coerced.values()])
+"""
+
+
+def r11_coerced_data_keeps_its_dtype(ctx, ix=None):
+    """Coercing an already conforming container is the identity, and whatever coercion returns has the declared dtype.
+    `.values` / `.to_numpy()` / `.tolist()` hand back a plain numpy array / list: a time-zone-aware level becomes naive
+    UTC, extension dtypes (Int64, category, string) become object.  In the coercion functions of the pandas backends data
+    on its way to the returned object therefore never passes through such an accessor; the only accepted use is the one
+    guarded by the `pyspark.pandas` module test (pyspark.pandas has no `.array`)."""
+    if ix is None:
+        from ..index import Index
+
+        class _S:
+            def __init__(self):
+                self.obs, self.stats = [], {}
+
+            def ob(self, rule, f, construct, ok, detail, loc=None):
+                self.obs.append((f.name, ok))
+
+            def touched(self, f):
+                pass
+        sink = _S()
+        r11_coerced_data_keeps_its_dtype(sink, Index.from_sources({"pandera/backends/pandas/_selftest.py": SELFTEST_DTYPE_DROPPING}))
+        if sorted(set(sink.obs)) != [("coerce_dtype_bad", False), ("coerce_dtype_ok", True)]:
+            raise AnalysisError(f"dtype-dropping accessor self-test failed: {sink.obs}")
+    selftest = ix is not None
+    ix = ix or ctx.ix
+    n = 0
+    for m in ix.modules.values():
+        if not m.path.startswith("pandera/backends/pandas/"):
+            continue
+        for f in m.all_functions:
+            if "coerce" not in f.name:
+                continue
+            for x in walk_no_nested(f.node):
+                acc = None
+                if isinstance(x, ast.Attribute) and x.attr == "values" and isinstance(x.ctx, ast.Load) and not (
+                        isinstance(getattr(x, "_parent", None), ast.Call) and x._parent.func is x):
+                    acc = x
+                elif isinstance(x, ast.Call) and isinstance(x.func, ast.Attribute) and x.func.attr in DTYPE_DROPPING - {"values"}:
+                    acc = x
+                if acc is None:
+                    continue
+                guards, child, p_ = [], acc, getattr(acc, "_parent", None)
+                while p_ is not None and p_ is not f.node:
+                    if isinstance(p_, ast.IfExp) and child is p_.body:
+                        guards.append(txt(p_.test))
+                    if isinstance(p_, ast.If) and child in p_.body:
+                        guards.append(txt(p_.test))
+                    child, p_ = p_, getattr(p_, "_parent", None)
+                ok = any("pyspark" in g for g in guards)
+                n += 1
+                ctx.touched(f)
+                ctx.ob("R11", f, f"{f.short}: `{txt(acc)[:40]}` (drops the dtype) only for pyspark.pandas objects", ok,
+                       "guarded by the pyspark.pandas module test" if ok else
+                       f"`{txt(acc)}` turns the coerced data into a plain numpy array / list: a datetime64[ns, UTC] MultiIndex level comes back as naive datetime64[ns] "
+                       "(Int64 / category / string levels as object), so coercing a conforming frame changes it and the schema then reports a wrong dtype", f.loc(acc))
+    if not selftest:
+        ctx.stats["dtype_dropping_accessors_in_coercion"] = n
+
+
 def run(ctx):
     from ..defassign import check_modules
     check_modules(ctx, "R8", ('pandera/engines/',), "escapes coercion instead of a ParserError / coerced data")
@@ -521,5 +592,6 @@ def run(ctx):
     r6_new_nulls(ctx)
     r9_polars_container_coverage(ctx)
     r10_coerce_accepts_an_index(ctx)
+    r11_coerced_data_keeps_its_dtype(ctx)
     r7_identity_shortcut(ctx)
     ctx.assume("astype/cast of pandas/polars return new objects")
